@@ -17,7 +17,7 @@ func init() {
 
 func runC03(c *core.Ctx, o Options) {
 	integrityRules(c)
-	c.RuleMin = map[string]int{"V1": 3, "V2": 2, "V3": 1, "V4": 3, "V5": 3, "V6": 4, "V7": 2}
+	c.RuleMin = map[string]int{"V1": 3, "V2": 2, "V3": 1, "V4": 3, "V5": 3, "V6": 4, "V7": 2, "V8": 1}
 	c.MinObl = 12
 }
 
@@ -26,8 +26,9 @@ const c03Explanation = "V1 (must-pass-through): in DefaultUnmarshaller.Unmarshal
 	"V3 (mode independence): no branch condition of the validation or of Unmarshal depends on the strict parameter / Strict field. V4: the recomputed checksum is a call of the very function the serializer uses (whose shape is checked as in C01.S1). " +
 	"V5 (mirror arithmetic): with the serializer's layout as the shape of the input, the measured length len(d) − (len(BeginString field)+1) − (len(BodyLength field)+1) − (len(CheckSum field)+1) is the length of the BodyLength region, and the slice handed to the checksum function has the length of the checksum prefix, len(d) − len(CheckSum field) − 2; the three fields are looked up with the message's own framing tags. " +
 	"V7: the framing fields are looked up in the very bytes that are measured and summed — the data given to the field scanner is the validation's argument passed along unmodified (parameter, whole-slice, or a scanner field stored only from such a parameter). " +
+	"V8: on the accepting path the CheckSum field found by the (first-occurrence) lookup is compared, with both delimiters, with the end of the input — the field that is measured and compared is the trailer, not a look-alike in front of it. " +
 	"V6: the declared values are read exactly — field values are the unmodified bytes up to the next delimiter, and BodyLength/CheckSum are parsed by the strict inverses of their formatters (no trimming or padding tolerance). " +
-	"Decides that nothing is accepted unless both checks pass; does NOT decide that every damaged variant fails them (a statement about 256·n neighbours per message: e.g. a NUL byte inserted into the BeginString value changes neither the measured region nor the byte sum, and the CheckSum field is located by its first anchored occurrence)."
+	"Decides that nothing is accepted unless both checks pass; does NOT decide that every damaged variant fails them (a statement about 256·n neighbours per message: e.g. a NUL byte inserted into the BeginString value changes neither the measured region nor the byte sum)."
 
 // integrityRules are the rules V1–V6 of C03; C16 runs them as a premise (a damaged message is rejected only if the integrity
 // check sees the damage).
@@ -218,6 +219,31 @@ func integrityBody(c *core.Ctx) {
 		c.Check(okEq, "V2", "validateRaw", "byte-wise comparison of the declared CheckSum value with the recomputed one", eq.Pos(), "bytes.Equal(cs value, CalcCheckSum(prefix))", "the comparison is between "+a0+" and "+a1)
 	} else {
 		c.Ob("V2", "validateRaw", "byte-wise comparison of the declared CheckSum value with the recomputed one", vr.Pos()).Fail("no bytes.Equal between the declared and the recomputed checksum: a numeric comparison accepts 77, +77 and 0077 for 077")
+	}
+	// ---- V8 the field taken for the CheckSum is the message's last field. The lookup returns the first anchored occurrence of the
+	// tag; the length and the sum are taken as if the field found were the trailer. A damaged tag in front of the real trailer
+	// (…␁16=110␁10=116␁ → …␁10=110␁10=116␁) yields a field of the same length whose value is the sum of the damaged bytes. So
+	// on the accepting path the field found is compared, with both delimiters, with the end of the input.
+	{
+		okTail, got := false, "no such test"
+		if okPath != nil {
+			want := an.Seq{{Bytes: []byte{1}}, {Atom: csB}, {Bytes: []byte{1}}}
+			for _, a := range okPath.Atoms {
+				call, isC := a.Val.(*ssa.Call)
+				if !isC || a.Rel != "true" || !an.CalleeIs(&call.Call, "bytes", "HasSuffix") || len(call.Call.Args) != 2 {
+					continue
+				}
+				hay := an.ResolveOnPath(call.Call.Args[0], okPath)
+				ev := &an.SeqEval{Path: okPath}
+				seq := ev.Eval(call.Call.Args[1])
+				got = "HasSuffix(" + an.RenderOnPath(hay, okPath) + ", " + seq.String() + ")"
+				if an.RenderOnPath(hay, okPath) == "d" && seq.Equal(want) {
+					okTail = true
+				}
+			}
+		}
+		c.Check(okTail, "V8", "validateRaw", "the field taken for the CheckSum is the last field of the input", vr.Pos(), "HasSuffix(d, SOH·⟨CheckSum field⟩·SOH) on the accepting path",
+			"on the accepting path the CheckSum field that was found (first anchored occurrence of the tag) is not compared with the end of the input ("+got+"): a field whose tag was damaged into the CheckSum tag in front of the real trailer is taken for the trailer — same length, and its value can be the sum of the damaged bytes")
 	}
 	// ---- V3 mode independence: in the validation, in Unmarshal and in every function of the package the framing lookup goes
 	// through (the scanner's constructor and its field lookup included)
